@@ -269,7 +269,8 @@ func runHistory(c *Ctx, genName string, idx int, hooks *historyHooks) {
 	model := gen.NewModel(gcfg.HashSize(), gcfg.ExactLog)
 	keys := gen.FlatKeys(3 + rng.Intn(10))
 	opts := gen.TxnOpts{Keys: keys, MaxRefs: 1 + rng.Intn(4), Journal: rng.Chance(0.5), DelP: []float64{0.1, 0.3, 0.5}[rng.Intn(3)],
-		LogTombP: []float64{0, 0.2, 0.5}[rng.Intn(3)], RichLogs: rng.Chance(0.5), SymP: 0.1, PeeledP: 0.15}
+		LogTombP: []float64{0, 0.2, 0.5}[rng.Intn(3)], RichLogs: rng.Chance(0.5), SymP: 0.1, PeeledP: 0.15,
+		LogFutP: []float64{0, 0, 0.15}[rng.Intn(3)]}
 	if idx%10 == 7 {
 		// few keys, many deletions, no logs: full compactions can end in an empty table
 		opts = gen.TxnOpts{Keys: keys[:2], MaxRefs: 2, DelP: 0.7, NoLogs: true}
